@@ -1,8 +1,16 @@
 (* Proofs about the polling loops of Model/Image.v and Model/Reader.v:
    every run of a loop is an admissible run (k frames consumed, optional abort) in the sense of
    Oracle/C05Oracle.v, with exactly the result the run prescribes. *)
-Require Import V.Base.MachineInt V.Generated.GenConsts V.Model.LogBase V.Model.Descriptor V.Model.Reader V.Model.Image
-               V.Oracle.C05Cases V.Oracle.C05Oracle V.Proofs.DescriptorProofs V.Proofs.ReaderProofs.
+Require Import V.Base.MachineInt.
+Require Import V.Generated.GenConsts.
+Require Import V.Model.LogBase.
+Require Import V.Model.Descriptor.
+Require Import V.Model.Reader.
+Require Import V.Model.Image.
+Require Import V.Oracle.C05Cases.
+Require Import V.Oracle.C05Oracle.
+Require Import V.Proofs.DescriptorProofs.
+Require Import V.Proofs.ReaderProofs.
 From Coq Require Import ZifyBool.
 Open Scope Z_scope.
 
